@@ -650,4 +650,172 @@ theorem reparse_rules (st : St) (htop : TopOK st.rules) (hk : ∀ r ∈ st.rules
   simp only [hq, cleanNamespaces_clean hclean]
   exact ⟨hinv.shapes, hinv.kinds⟩
 
+/-! ## the returned index -/
+
+theorem afterLastOf_le (ks : List Kind) (l : List Kind) : afterLastOf ks l ≤ l.length := by
+  induction l with
+  | nil => simp [afterLastOf]
+  | cons a t ih =>
+    simp only [afterLastOf, List.length_cons]
+    split
+    · omega
+    · split <;> omega
+
+theorem firstIdx_lt {ks : List Kind} {l : List Kind} {j : Nat} (h : firstIdx ks l = some j) : j < l.length := by
+  obtain ⟨a, e, b, hl, ha, _, _⟩ := firstIdx_some h
+  rw [hl, ← ha]; simp
+
+theorem place_at_le {l : List Kind} {k : Kind} {idx : Nat} {io : Bool} {i : Nat}
+    (h : place l k idx io = .at i) (hidx : idx ≤ l.length) : i ≤ l.length := by
+  unfold place at h
+  try dsimp only at h
+  repeat' split at h
+  all_goals first
+    | (injection h with h; subst h
+       first
+         | exact hidx
+         | exact Nat.zero_le _
+         | exact Nat.le_refl _
+         | exact afterLastOf_le _ _
+         | (rename_i hj; have := firstIdx_lt hj; simp only [List.length_drop] at this; omega)
+         | (rename_i hj; exact Nat.le_of_lt (firstIdx_lt hj))
+         | (rename_i hf; cases l with
+            | nil => simp [firstIs] at hf
+            | cons a t => simp))
+    | cases h
+
+theorem pyInsert_getElem (l : List Rule) (i : Nat) (x : Rule) (h : i ≤ l.length) : (pyInsert l i x)[i]? = some x := by
+  unfold pyInsert
+  rw [List.getElem?_append_right (by simp [List.length_take, Nat.min_eq_left h])]
+  simp [List.length_take, Nat.min_eq_left h]
+
+theorem pyInsert_length (l : List Rule) (i : Nat) (x : Rule) : (pyInsert l i x).length = l.length + 1 := by
+  unfold pyInsert
+  simp only [List.length_append, List.length_cons, List.length_take, List.length_drop]
+  omega
+
+theorem setEnc0_length (e : Cps) (l : List Rule) : (setEnc0 e l).length = l.length := by
+  cases l <;> simp [setEnc0]
+
+theorem adoptId_getElem (i : Nat) (l : List Rule) (n : Nat) (x : Rule) (h : l[n]? = some x) (hid : x.id = i) :
+    (adoptId i l)[n]? = some x.adopt := by
+  unfold adoptId
+  rw [List.getElem?_map, h]
+  simp [hid]
+
+/-- an accepted insert that made the list one longer returns the index at which the new rule stands -/
+theorem insertCore_index (st : St) (dict : Dict) (r : Rule) (idx : Nat) (inOrder clean track : Bool) (n : Nat)
+    (hidx : idx ≤ st.rules.length)
+    (hok : (insertCore st dict r idx inOrder clean track).2 = .ok n)
+    (hlen : (insertCore st dict r idx inOrder clean track).1.rules.length = st.rules.length + 1) :
+    (insertCore st dict r idx inOrder clean track).1.rules[n]? = some r.adopt := by
+  unfold insertCore at hok hlen ⊢
+  split
+  · rename_i e he
+    simp only [he] at hok
+    unfold logError at hok; split at hok <;> cases hok
+  · rename_i he
+    simp only [he] at hlen
+    exfalso
+    have : (setEnc0 r.enc st.rules).length = st.rules.length + 1 := hlen
+    rw [setEnc0_length] at this; omega
+  · rename_i i hp
+    have hi : i ≤ st.rules.length := by
+      have := place_at_le hp (by simpa using hidx)
+      simpa using this
+    simp only [hp] at hok hlen
+    split
+    · rename_i hns
+      simp only [hns, if_true] at hok hlen
+      split
+      · rename_i hdup
+        simp only [hdup, if_true] at hok
+        cases hok
+      · rename_i hdup
+        simp only [hdup] at hok hlen
+        split
+        · rename_i hcl
+          simp only [hcl, if_true] at hok hlen
+          dsimp only at hok hlen ⊢
+          have hsub := cleanNamespaces_sublist (pyInsert st.rules i r)
+          split
+          · rename_i e he
+            simp only [he] at hok; cases hok
+          · rename_i he
+            simp only [he] at hok hlen
+            split
+            · rename_i hany
+              simp only [hany, if_true] at hok hlen
+              injection hok with hok; subst hok
+              have hl2 : (adoptId r.id (cleanNamespaces (pyInsert st.rules i r)).1).length = st.rules.length + 1 := hlen
+              unfold adoptId at hl2
+              rw [List.length_map] at hl2
+              have heq : (cleanNamespaces (pyInsert st.rules i r)).1 = pyInsert st.rules i r :=
+                hsub.eq_of_length (by rw [hl2, pyInsert_length])
+              show (adoptId r.id (cleanNamespaces (pyInsert st.rules i r)).1)[i]? = some r.adopt
+              rw [heq]
+              exact adoptId_getElem _ _ _ _ (pyInsert_getElem _ _ _ hi) rfl
+            · rename_i hany
+              simp only [hany] at hok
+              cases hok
+        · rename_i hcl
+          simp only [hcl] at hok
+          injection hok with hok; subst hok
+          exact pyInsert_getElem _ _ _ hi
+    · rename_i hns
+      simp only [hns, if_false] at hok
+      injection hok with hok; subst hok
+      exact pyInsert_getElem _ _ _ hi
+
+theorem idxOf_le {index : Option Int} {len idx : Nat} (h : idxOf index len = some idx) : idx ≤ len := by
+  unfold idxOf at h
+  split at h
+  · injection h with h; omega
+  · split at h
+    · cases h
+    · rename_i i hi
+      injection h with h
+      simp only [Bool.or_eq_true, decide_eq_true_eq, not_or, Int.not_lt] at hi
+      omega
+
+theorem insertRule_index (st : St) (s : Spec) (index : Option Int) (inOrder viaStr track : Bool) (n : Nat)
+    (hok : (insertRule st s index inOrder viaStr track).2 = .ok n)
+    (hlen : (insertRule st s index inOrder viaStr track).1.rules.length = st.rules.length + 1) :
+    ∃ x, (insertRule st s index inOrder viaStr track).1.rules[n]? = some x ∧
+      x.kind = s.kind ∧ x.pss = true ∧ x.id = st.next := by
+  unfold insertRule at hok hlen ⊢
+  dsimp only at hok hlen ⊢
+  cases hi : idxOf index st.rules.length with
+  | none =>
+    simp only [hi] at hok
+    cases viaStr <;> simp at hok
+  | some idx =>
+    cases viaStr with
+    | true =>
+      simp only [hi, if_true] at hok hlen ⊢
+      cases hc : parseCand st.raising (nsDict st.rules) st.next s with
+      | error e => simp only [hc] at hok; cases hok
+      | ok oc =>
+        cases oc with
+        | none =>
+          simp only [hc] at hok
+          unfold logError at hok; split at hok <;> cases hok
+        | some c =>
+          simp only [hc] at hok hlen ⊢
+          have := insertCore_index { rules := st.rules, gone := st.gone, next := c.2, raising := st.raising }
+            (nsDict st.rules) c.1 idx inOrder true false n (idxOf_le hi) hok hlen
+          exact ⟨c.1.adopt, this, by rw [adopt_kind, parseCand_kind hc], rfl, (parseCand_ok hc).2.2.1⟩
+    | false =>
+      simp only [hi, Bool.false_eq_true, if_false] at hok hlen ⊢
+      cases hwf : s.wellformed with
+      | false =>
+        simp only [hwf, Bool.not_false, if_true] at hok
+        unfold logError at hok; split at hok <;> cases hok
+      | true =>
+        simp only [hwf, Bool.not_true, Bool.false_eq_true, if_false] at hok hlen ⊢
+        have := insertCore_index
+          { rules := st.rules, gone := st.gone, next := (Spec.inst none st.next s).2, raising := st.raising }
+          (nsDict st.rules) (Spec.inst none st.next s).1 idx inOrder true track n (idxOf_le hi) hok hlen
+        exact ⟨(Spec.inst none st.next s).1.adopt, this, by rw [adopt_kind, inst_kind], rfl, inst_id none st.next s⟩
+
 end CssVerif.SheetEdit
